@@ -242,7 +242,7 @@ theorem tailDecl_space : ∀ (its : List HItem), tailDecl its ++ [32] = 32 :: it
 
 /-- the text of a declaration behind `declare `, which is also the text of the header of a definition behind `define ` and in front of ` {` -/
 def sigString (f : Func) : Bytes :=
-  flagsString kLead f.lead ++ tyString f.ret ++ [32] ++ Enc.globalName f.name ++ [40] ++ paramsString (zipA f.params f.pattrs) ++ [41] ++ tailDecl (itemsOf f.tail)
+  flagsString kLead f.lead ++ tyString f.ret ++ [32] ++ Enc.globalName f.name ++ [40] ++ paramsString (zipA f.params f.pattrs) ++ varString f.params.isEmpty f.variadic ++ [41] ++ tailDecl (itemsOf f.tail)
 
 theorem headerString_sig (f : Func) : headerString f = sDefine ++ sigString f ++ [32, 123] := by
   have := tailDecl_space (itemsOf f.tail)
@@ -251,7 +251,7 @@ theorem headerString_sig (f : Func) : headerString f = sDefine ++ sigString f ++
   have e : tailDecl (itemsOf f.tail) ++ [32, 123] = (tailDecl (itemsOf f.tail) ++ [32]) ++ [123] := by simp
   rw [e, this]; simp
 
-theorem readDecl_print (f : Func) (h : headerOK f) : readDecl (declString f) = some (f.lead, f.ret, f.name, zipA f.params f.pattrs, f.tail) := by
+theorem readDecl_print (f : Func) (h : headerOK f) : readDecl (declString f) = some (f.lead, f.ret, f.name, zipA f.params f.pattrs, f.variadic, f.tail) := by
   have e : declString f = sDeclare ++ sigString f := by
     simp [declString, sigString]
   rw [readDecl, e, TyParse.stripPrefix_append]
@@ -310,7 +310,7 @@ theorem readFunc_print (useHex : Int → Bool) (f : Func) (h : wfSyn f = true) (
   have hz2 := zipA_snd f.params f.pattrs hlen
   by_cases hbl : f.blocks = []
   · -- a declaration
-    obtain ⟨fr, fn, fp, fb, fl, ft, fa⟩ := f
+    obtain ⟨fr, fn, fp, fb, fl, ft, fa, fv⟩ := f
     simp only at hbl hz1 hz2
     subst hbl
     simp only [printFunc, List.isEmpty_nil, if_true, readFunc, readDecl_print _ hok, hz1, hz2]
